@@ -206,7 +206,7 @@ pub fn run(out: &Path, seed: u64, thorough: bool, prop: &str) -> Result<(), Box<
             };
             let (height_after, _) = (run.tracker.height(), 0);
             let call_term: Option<String> = match &resolved {
-                Op::Deploy { enc: Enc::Both | Enc::Neither, .. } | Op::Call { enc: Enc::Both | Enc::Neither, .. } | Op::Transact { enc: Enc::Both | Enc::Neither, .. } => Some("CBadParams".to_string()),
+                Op::Deploy { enc: Enc::Both | Enc::BothBadHex | Enc::BothBadBase64 | Enc::Neither, .. } | Op::Call { enc: Enc::Both | Enc::BothBadHex | Enc::BothBadBase64 | Enc::Neither, .. } | Op::Transact { enc: Enc::Both | Enc::BothBadHex | Enc::BothBadBase64 | Enc::Neither, .. } => Some("CBadParams".to_string()),
                 Op::Deploy { tail, .. } | Op::Call { tail, .. } => Some(format!("CTx {} {} {} {} {}", addr_term(&sender.unwrap()), idx_of(tail.tx_idx), tail.ts, hash_term(&tail.hash), cf::boolean(consumed > 0 || !outp.status.is_ok()))),
                 Op::Deposit { ts, hash, tx_idx, .. } | Op::Withdraw { ts, hash, tx_idx, .. } => Some(format!("CTx {} {} {} {} {}", addr_term(&indexer), idx_of(*tx_idx), ts, hash_term(hash), cf::boolean(consumed > 0 || !outp.status.is_ok()))),
                 Op::Transact { raw_tx, enc, tail } => {
